@@ -1,8 +1,16 @@
-(* C14, t-digest part -- malformed bytes yield an error, never a panic: the modelled readers
-   (TDigestMut::deserialize with both flavours and deserialize_compat, REPAIRED code: payload-length
-   check before the allocations, checked weight sums) are total and never reach a panic site for
-   ANY byte string; whatever they accept is well-shaped, and the image-sized allocations are
-   covered by the input.  Statements only; proofs in Proofs/TDigestCodec.v. *)
+(* C14, t-digest part -- malformed bytes yield an error, never a panic.  Model/TDigestCodec.v models
+   TDigestMut::deserialize (both flavours) and deserialize_compat of the REPAIRED code (payload-length
+   check before the allocations, checked weight sums, no-items normalisation in make).
+
+   What [Stuck] stands for in this model, plainly: the ONE explicit panic site on the readers' path,
+   `assert!(k >= 10)` in TDigestMut::make ([tdb_make]), which every Ok exit goes through -- so
+   c14_tdigest_never_stuck says that the readers' own k check always precedes it.  The other sites
+   that would panic are modelled as the absence of overflow, not as Stuck: cursor reads are total
+   functions returning Err on short input (as SketchSlice does), and the weight sums are the checked
+   ones.  Beyond that the theorem is totality of the model; arithmetic overflow, slice indexing and
+   allocation failure in the real reader are observed by the harness (debug + release builds, the
+   allocation-cap marker), not proved.
+   Statements only; proofs in Proofs/TDigestCodec.v. *)
 From DS Require Import Base.Prelude Base.TDigestBits Model.TDigestCodec Proofs.TDigestCodec.
 Open Scope N_scope.
 
@@ -16,15 +24,27 @@ Proof. exact tdb_dec_never_stuck. Qed.
 Theorem c14_tdigest_ok_is_wellshaped : forall is_f32 bs s, tdb_dec is_f32 bs = Ok s -> shaped s (length bs).
 Proof. exact tdb_dec_shape. Qed.
 
-(* Vec::with_capacity(num_centroids) / (num_buffered): at most 2 bytes requested per input byte *)
-Theorem c14_tdigest_alloc_linear : forall is_f32 bs, tdb_requests is_f32 bs <= 2 * N.of_nat (length bs).
+(* The image-sized allocation requests, RETURNED BY THE MODELLED READER ITSELF: [tdb_dec_req] is the
+   reader instrumented at every Vec::with_capacity / vec![] whose size comes from the image (16 bytes
+   per announced centroid, 8 per announced buffered value, after the payload-length check; for the
+   reference float format, whose count is a u16, 16 * n is requested BEFORE any length check: at most
+   1,048,560 bytes whatever the input length -- the additive constant below).  Its outcome is the
+   reader's, and the requested bytes are linear in the input.  [bytes_ok]: every element is a byte. *)
+Theorem c14_tdigest_instrumented_reader_is_the_reader : forall is_f32 bs, fst (tdb_dec_req is_f32 bs) = tdb_dec is_f32 bs.
+Proof. exact tdb_dec_req_outcome. Qed.
+
+Theorem c14_tdigest_alloc_linear : forall is_f32 bs, bytes_ok bs = true ->
+  tdb_requests is_f32 bs <= 2 * N.of_nat (length bs) + 16 * 65535.
 Proof. exact tdb_requests_linear. Qed.
 
 (* non-vacuity: the 32-byte image announcing 2^32-1 centroids (known_findings.d/tdigest-C14-centroid-alloc)
-   is rejected without any image-sized request; an image whose weights sum past u64 is rejected *)
+   is rejected without any image-sized request; an image whose weights sum past u64 is rejected; the
+   30-byte reference float image announcing 65535 centroids requests 1,048,560 bytes and is rejected *)
 Example c14_tdigest_example :
   let huge := [2; 1; 20; 100; 0; 0; 0; 0;  255; 255; 255; 255;  0; 0; 0; 0;  0; 0; 0; 0; 0; 0; 0; 0;  0; 0; 0; 0; 0; 0; 0xf0; 0x3f] in
   tdb_dec false huge = Err /\ tdb_requests false huge = 0 /\
   tdb_dec false ([2; 1; 20; 100; 0; 0; 0; 0;  2; 0; 0; 0;  0; 0; 0; 0;  0; 0; 0; 0; 0; 0; 0; 0;  0; 0; 0; 0; 0; 0; 0xf0; 0x3f;
-                  0; 0; 0; 0; 0; 0; 0; 0;  255; 255; 255; 255; 255; 255; 255; 255;   0; 0; 0; 0; 0; 0; 0xf0; 0x3f;  2; 0; 0; 0; 0; 0; 0; 0]) = Err.
+                  0; 0; 0; 0; 0; 0; 0; 0;  255; 255; 255; 255; 255; 255; 255; 255;   0; 0; 0; 0; 0; 0; 0xf0; 0x3f;  2; 0; 0; 0; 0; 0; 0; 0]) = Err /\
+  let reff := [0; 0; 0; 2;  0x3f; 0xf0; 0; 0; 0; 0; 0; 0;  0x40; 0x10; 0; 0; 0; 0; 0; 0;  0x42; 0xc8; 0; 0;  0; 0; 0; 0;  0xff; 0xff] in
+  tdb_dec false reff = Err /\ tdb_requests false reff = 1048560.
 Proof. cbv zeta. repeat split; vm_compute; reflexivity. Qed.
